@@ -216,7 +216,7 @@ def run_case(spec):
                 elif polygonal:
                     ok = abs(rg.ex(m) - want) <= F(1, 10**9) * max(abs(want), size ** (a + b + 2) * F(1, 1000))
                 else:
-                    ok = abs(rg.ex(m) - want) <= F(2, 1000) * size ** (a + b + 2)
+                    ok = abs(rg.ex(m) - want) <= F(1, 10**6) * size ** (a + b + 2)
                 if not ok:
                     fail("moment", "moment(%d,%d) = %r, reference %s" % (a, b, m, float(want)))
                     break
